@@ -629,8 +629,7 @@ def r3(ctx):
     w_before = None
     for sn in snap_nodes:
         w_before = w_before or g_ga.always_preceded(sn, conv_nodes)
-    later = sorted(set(conv_nodes) & (g_ga.reachable(snap_nodes) - set(snap_nodes))) if not isinstance(snap, ast.For) else \
-        sorted(set(conv_nodes) & g_ga.reachable([b for sn in snap_nodes for b, lab in g_ga.succ[sn] if lab != "loop"]) - set(snap_nodes)) and []
+    later = sorted((set(conv_nodes) & g_ga.reachable(snap_nodes)) - set(snap_nodes))
     if not registering:
         ctx.ok(f"{ga.key}:rewrite-after-convert", "no per_state_flush_actions() registers dependency edges: order is immaterial")
     else:
